@@ -126,9 +126,9 @@ PROPS = {
         'floors': (13990, 13990, 13990),      # minimum requests / oracle lines / strong-oracle lines a run must cover (about half of the quick tier)
         'extra_stages': [stages.regex_difference_search, stages.f32_assumptions],
         'gen_items': ['Rank', 'RankSucc', 'Suit', 'CardBits', 'Ranges', 'Pair', 'RankPair', 'Token'],
-        'lean_modules': ['EspadaVerif.Props.C06', 'EspadaVerif.Props.Witness.C06', 'EspadaVerif.Props.C06Contents', 'EspadaVerif.Props.C06FromIter'],
+        'lean_modules': ['EspadaVerif.Props.C06', 'EspadaVerif.Props.Witness.C06', 'EspadaVerif.Props.C06Contents', 'EspadaVerif.Props.C06FromIter', 'EspadaVerif.Props.Witness.C06FromIter'],
         'namespaces': ['EspadaVerif.C06'],
-        'theorems': ['EspadaVerif.C06.C06_token', 'EspadaVerif.C06.C06_range', 'EspadaVerif.C06.Witness.C06_range_at_witness', 'EspadaVerif.C06.C06_range_contents', 'EspadaVerif.C06.C06_collect'],
+        'theorems': ['EspadaVerif.C06.C06_token', 'EspadaVerif.C06.C06_range', 'EspadaVerif.C06.Witness.C06_range_at_witness', 'EspadaVerif.C06.C06_range_contents', 'EspadaVerif.C06.C06_collect', 'EspadaVerif.C06.Witness.C06_collect_at_witness'],
         'profiles': ['debug'],
         'gen_release': True,
         'parallel': 14,
